@@ -30,6 +30,7 @@ PROPS = {
     "C06": "vf.harness.C06",
     "C07": "vf.harness.C07",
     "C08": "vf.harness.C08",
+    "C10": "vf.harness.C10",
     "C13": "vf.harness.C13",
     "C14": "vf.harness.C14",
 }
